@@ -133,6 +133,12 @@ func seqTok(g *gocql.VerifStreams, w string) (string, bool) {
 			return "", false
 		}
 		return doClear(g, id), true
+	case strings.HasPrefix(w, "n"): // n<k> = Clear(-k), k >= 1: a NEGATIVE argument (seq lines only; excluded from the spec monitor)
+		k, err := strconv.Atoi(w[1:])
+		if err != nil || k < 1 {
+			return "", false
+		}
+		return doClear(g, -k), true
 	case strings.HasPrefix(w, "O"):
 		v, ok := presetValue(g, w)
 		if !ok {
@@ -206,6 +212,9 @@ func runSmon(proto int, toks []string) (res string) {
 			if id, err := strconv.Atoi(w[1:]); err == nil && id == 0 {
 				return "n/a"
 			}
+		}
+		if strings.HasPrefix(w, "n") { // Clear of a negative id: excluded case (proposed finding KF-C08-3)
+			return "n/a"
 		}
 	}
 	g := gocql.VerifStreamsNew(proto)
@@ -1106,6 +1115,16 @@ func genSeq(r *vh.Rng, out *vh.Out) {
 				ops = append(ops, fmt.Sprintf("c%d", id))
 				seqTok(g, ops[len(ops)-1])
 			}
+		case x < 80 && r.Intn(4) == 0: // negative argument: Clear(-k), k = 1..63 (word 0, empty mask), 64.., far below
+			k := 1 + r.Intn(63)
+			switch r.Intn(4) {
+			case 0:
+				k = 64 + r.Intn(130)
+			case 1:
+				k = []int{1, 63, 64, 65, 127, 128, 129, 32767, 32768, 100000}[r.Intn(10)]
+			}
+			ops = append(ops, fmt.Sprintf("n%d", k))
+			seqTok(g, ops[len(ops)-1])
 		case x < 80: // arbitrary id (possibly free, reserved or out of range)
 			var id int
 			switch r.Intn(5) {
@@ -2269,6 +2288,11 @@ func main() {
 		"seq 2 g c0 g g a s",
 		"seq 2 c128 a",
 		"seq 2 c127 c64 c63 a s",
+		"seq 2 g n1 a s g a",
+		"seq 1 n1 a g a",
+		"seq 2 G5 n63 n64 n65 a s",
+		"seq 3 G70 n1 n2 n128 a g a",
+		"smon 2 g n1 a",
 	} {
 		emitCase(out, op, exec(op), "seq/fixed", true)
 	}
